@@ -39,7 +39,7 @@ class VirtualTime:
 
 def plan(tier, seed):
     n = 8
-    return [{"part": i, "parts": n, "bits": 32 if tier == "quick" else 128, "random_ids": 6 if tier == "quick" else 60,
+    return [{"part": i, "parts": n, "bits": 32 if tier == "quick" else 128, "random_ids": 6 if tier == "quick" else 300,
              "fault_codes": 40 if tier == "quick" else 255, "cs": seed * 100 + i} for i in range(n)]
 
 
